@@ -47,6 +47,10 @@ def check_flag_lists(obj, label, fails, ctx):
                 break
     if list(obj.flags) != list(obj.e_flags) + list(obj.w_flags):
         fails.append(Failure("flags_combined", f"{label}.flags is not e_flags + w_flags", **ctx))
+    # the combined lists are paired one-to-one as well
+    comb, comb_lines = list(obj.flags), list(obj.flag_lines)
+    if len(comb) != len(comb_lines) or any(not (isinstance(ln, tuple) and len(ln) == 2 and ln[0] == f) for f, ln in zip(comb, comb_lines)):
+        fails.append(Failure("flags_combined_pairing", f"{label}: .flags {comb!r} and .flag_lines {comb_lines!r} are not paired one-to-one"[:500], **ctx))
     if bool(obj.desc_is_flawed) != bool(obj.e_flags):
         fails.append(Failure("desc_is_flawed", f"{label}.desc_is_flawed={obj.desc_is_flawed} but e_flags={obj.e_flags!r}", **ctx))
 
